@@ -13,7 +13,7 @@
 using namespace cola; using namespace std;
 static mcx::Ctx ctx;
 typedef vector<double> VD;
-struct Tpl { string name; function<CompoundConstraint *(vpsc::Rectangles &, vector<CompoundConstraint *> &)> make; function<double(const VD &, const VD &, const VD &, const VD &)> viol; int maxNode; };
+struct Tpl { string name; function<CompoundConstraint *(vpsc::Rectangles &, vector<CompoundConstraint *> &)> make; function<double(const VD &, const VD &, const VD &, const VD &)> viol; int maxNode; function<void(CompoundConstraint *)> edit; };   // edit: the caller changes the constraint through its public setter (between two layouts); the oracle follows
 
 static bool g_mode_makeFeasibleOnly = false; static vector<double> g_w, g_h;   // (for the page-boundary template: its oracle needs the node sizes and is not evaluated after makeFeasible() alone)
 static vector<Tpl> templates() {
@@ -33,6 +33,21 @@ static vector<Tpl> templates() {
                      [=](const VD &x, const VD &y, const VD &, const VD &) { const VD &p = P(x, y); return max(fabs(p[1] - p[0] - 25), fabs(p[2] - p[1] - 25)); }, 2});
         T.push_back({"MultiSeparation " + ds + " a0,a1 minsep 18", [=](vpsc::Rectangles &, vector<CompoundConstraint *> &extra) -> CompoundConstraint * { AlignmentConstraint *a0 = new AlignmentConstraint(D), *a1 = new AlignmentConstraint(D); a0->addShape(0, 0); a1->addShape(1, 0); extra.push_back(a0); extra.push_back(a1); MultiSeparationConstraint *m = new MultiSeparationConstraint(D, 18, false); m->addAlignmentPair(a0, a1); return m; },
                      [=](const VD &x, const VD &y, const VD &, const VD &) { const VD &p = P(x, y); return max(0.0, -(p[1] - p[0] - 18)); }, 1});
+    }
+    // the public setters: the constraint is constructed with one value and given another through setSeparation() BEFORE the first layout (and, in the histories,
+    // a third one between two layouts); the value in force is whatever the last setter call said
+    for (int dim = 0; dim < 2; dim++) { vpsc::Dim D = (vpsc::Dim)dim; string ds = dim ? "Y" : "X"; auto P = [dim](const VD &x, const VD &y) -> const VD & { return dim ? y : x; };
+        { auto cur = std::make_shared<double>(0);
+          T.push_back({"Separation " + ds + " 0+g<=1, g=40 at construction, then setSeparation(15)", [=](vpsc::Rectangles &, vector<CompoundConstraint *> &) -> CompoundConstraint * { SeparationConstraint *c = new SeparationConstraint(D, 0, 1, 40, false); c->setSeparation(15); *cur = 15; return c; },
+                       [=](const VD &x, const VD &y, const VD &, const VD &) { const VD &p = P(x, y); return max(0.0, -(p[1] - p[0] - *cur)); }, 1, [=](CompoundConstraint *c) { double nv = *cur == 15 ? 33 : 15; static_cast<SeparationConstraint *>(c)->setSeparation(nv); *cur = nv; }}); }
+        { auto cur = std::make_shared<double>(0);
+          T.push_back({"MultiSeparation " + ds + " a0,a1 minsep g, g=5 at construction, then setSeparation(26)", [=](vpsc::Rectangles &, vector<CompoundConstraint *> &extra) -> CompoundConstraint * { AlignmentConstraint *a0 = new AlignmentConstraint(D), *a1 = new AlignmentConstraint(D); a0->addShape(0, 0); a1->addShape(1, 0); extra.push_back(a0); extra.push_back(a1);
+                           MultiSeparationConstraint *m = new MultiSeparationConstraint(D, 5, false); m->addAlignmentPair(a0, a1); m->setSeparation(26); *cur = 26; return m; },
+                       [=](const VD &x, const VD &y, const VD &, const VD &) { const VD &p = P(x, y); return max(0.0, -(p[1] - p[0] - *cur)); }, 1, [=](CompoundConstraint *c) { double nv = *cur == 26 ? 12 : 26; static_cast<MultiSeparationConstraint *>(c)->setSeparation(nv); *cur = nv; }}); }
+        { auto cur = std::make_shared<double>(0);
+          T.push_back({"Distribution " + ds + " a0|a1|a2 sep g, g=60 at construction, then setSeparation(22)", [=](vpsc::Rectangles &, vector<CompoundConstraint *> &extra) -> CompoundConstraint * { AlignmentConstraint *a0 = new AlignmentConstraint(D), *a1 = new AlignmentConstraint(D), *a2 = new AlignmentConstraint(D); a0->addShape(0, 0); a1->addShape(1, 0); a2->addShape(2, 0); extra.push_back(a0); extra.push_back(a1); extra.push_back(a2);
+                           DistributionConstraint *d = new DistributionConstraint(D); d->addAlignmentPair(a0, a1); d->addAlignmentPair(a1, a2); d->setSeparation(60); d->setSeparation(22); *cur = 22; return d; },
+                       [=](const VD &x, const VD &y, const VD &, const VD &) { const VD &p = P(x, y); return max(fabs(p[1] - p[0] - *cur), fabs(p[2] - p[1] - *cur)); }, 2, [=](CompoundConstraint *c) { double nv = *cur == 22 ? 31 : 22; static_cast<DistributionConstraint *>(c)->setSeparation(nv); *cur = nv; }}); }
     }
     // fixed-relative groups: relative offsets of the members stay what they were at construction (x0,y0 = initial centres)
     T.push_back({"FixedRelative {0,1}", [=](vpsc::Rectangles &rs, vector<CompoundConstraint *> &) -> CompoundConstraint * { return new FixedRelativeConstraint(rs, {0, 1}); }, [=](const VD &x, const VD &y, const VD &x0, const VD &y0) { return max(fabs((x[1] - x[0]) - (x0[1] - x0[0])), fabs((y[1] - y[0]) - (y0[1] - y0[0]))); }, 1});
@@ -130,22 +145,24 @@ static void c07_phase(int n, int mode, bool overlap, bool nbr, int placementStep
 }
 
 // ---- C08 -------------------------------------------------------------------------------
-struct Hier { const char *name; vector<vector<int>> top; vector<int> nestedIn0; int emptyCluster = 0; };   // top-level clusters; optional child cluster inside cluster 0; emptyCluster: 1 an EMPTY child cluster of cluster 0 listed after the nested child, 2 listed before it, 3 an empty top-level cluster
+struct Hier { const char *name; vector<vector<int>> top; vector<int> nestedIn0; int emptyCluster = 0; int rectIdx = -1; };   // rectIdx >= 0: top-level cluster 0 is RectangularCluster(rectIdx), a cluster that IS node rectangle rectIdx (80x80 here) and contains its child nodes   // top-level clusters; optional child cluster inside cluster 0; emptyCluster: 1 an EMPTY child cluster of cluster 0 listed after the nested child, 2 listed before it, 3 an empty top-level cluster
 static void c08_case(int n, int code, int sz, int hier, double pad, bool exempt, bool withSep) {
     static const vector<Hier> H = {{"none", {}, {}}, {"{0,1}|{2,3}", {{0, 1}, {2, 3}}, {}}, {"{0,2}|{1}", {{0, 2}, {1}}, {}}, {"{0,1,2}|{3}", {{0, 1, 2}, {3}}, {}}, {"{{0,1},2}|{3}", {{2}, {3}}, {0, 1}},
-                                   {"{{0,1},{}}|{2,3}", {{}, {2, 3}}, {0, 1}, 1}, {"{{},{0,1}}|{2,3}", {{}, {2, 3}}, {0, 1}, 2}, {"{0,1}|{}|{2,3}", {{0, 1}, {2, 3}}, {}, 3}, {"{{0,1},{},2}|{3}", {{2}, {3}}, {0, 1}, 1}};
+                                   {"{{0,1},{}}|{2,3}", {{}, {2, 3}}, {0, 1}, 1}, {"{{},{0,1}}|{2,3}", {{}, {2, 3}}, {0, 1}, 2}, {"{0,1}|{}|{2,3}", {{0, 1}, {2, 3}}, {}, 3}, {"{{0,1},{},2}|{3}", {{2}, {3}}, {0, 1}, 1},
+                                   {"rect0{1,2}|{3}", {{1, 2}, {3}}, {}, 0, 0}, {"rect3{0,1}|{2}", {{0, 1}, {2}}, {}, 0, 3}, {"rect0{1,2}, node 3 free", {{1, 2}}, {}, 0, 0}, {"rect2{0,1}, node 3 free", {{0, 1}}, {}, 0, 2}};
     const Hier &hr = H[hier]; for (auto &m : hr.top) for (int v : m) if (v >= n) return; for (int v : hr.nestedIn0) if (v >= n) return;
     vpsc::Rectangles rs; int c = code; VD w0, h0; string start;
     double G2[3] = {0, 15, 40};
-    for (int i = 0; i < n; i++) { double x = G2[c % 3]; c /= 3; double y = G2[c % 3]; c /= 3; double w = ((sz >> i) & 1) ? 40 : 20, h = 20; rs.push_back(new vpsc::Rectangle(x - w / 2, x + w / 2, y - h / 2, y + h / 2)); w0.push_back(w); h0.push_back(h); start += mcx::fmt("(%g,%g)", x, y); }
+    for (int i = 0; i < n; i++) { double x = G2[c % 3]; c /= 3; double y = G2[c % 3]; c /= 3; double w = ((sz >> i) & 1) ? 40 : 20, h = 20; if (i == hr.rectIdx) w = h = 80; rs.push_back(new vpsc::Rectangle(x - w / 2, x + w / 2, y - h / 2, y + h / 2)); w0.push_back(w); h0.push_back(h); start += mcx::fmt("(%g,%g)", x, y); }
     vector<Edge> es; for (int i = 0; i + 1 < n; i++) es.push_back(Edge(i, i + 1));
     CompoundConstraints ccs; if (withSep) ccs.push_back(new SeparationConstraint(vpsc::XDIM, 0, 1, 15));
     RootCluster *root = nullptr; vector<vector<int>> groups;   // member sets whose bounding boxes are judged
     if (!hr.top.empty()) {
         root = new RootCluster();
-        for (size_t k = 0; k < hr.top.size(); k++) { RectangularCluster *rc = new RectangularCluster(); rc->setPadding(Box(pad)); rc->setMargin(Box(pad)); vector<int> mem = hr.top[k]; for (int v : hr.top[k]) rc->addChildNode(v);
+        for (size_t k = 0; k < hr.top.size(); k++) { RectangularCluster *rc = (k == 0 && hr.rectIdx >= 0) ? new RectangularCluster((unsigned)hr.rectIdx) : new RectangularCluster(); rc->setPadding(Box(pad)); rc->setMargin(Box(pad)); vector<int> mem = hr.top[k]; for (int v : hr.top[k]) rc->addChildNode(v);
             if (k == 0 && !hr.nestedIn0.empty()) { RectangularCluster *in = new RectangularCluster(); in->setPadding(Box(pad)); in->setMargin(Box(pad)); for (int v : hr.nestedIn0) { in->addChildNode(v); mem.push_back(v); }
                 if (hr.emptyCluster == 2) rc->addChildCluster(new RectangularCluster()); rc->addChildCluster(in); if (hr.emptyCluster == 1) rc->addChildCluster(new RectangularCluster()); }
+            if (k == 0 && hr.rectIdx >= 0) mem.push_back(hr.rectIdx);   // the cluster's own rectangle belongs to it
             root->addChildCluster(rc); if (k == 0 && hr.emptyCluster == 3) root->addChildCluster(new RectangularCluster()); groups.push_back(mem); }
     }
     string desc = mcx::fmt("n=%d start %s sizes=%d clusters=%s padding/margin=%g exempt{0,1}=%d sep(0+15<=1)=%d", n, start.c_str(), sz, hr.name, pad, exempt, withSep);
@@ -161,6 +178,7 @@ static void c08_case(int n, int code, int sz, int hier, double pad, bool exempt,
     for (int i = 0; i < n; i++) { if (!(rs[i]->getCentreX() == rs[i]->getCentreX()) || std::isinf(rs[i]->getCentreX()) || !(rs[i]->getCentreY() == rs[i]->getCentreY())) ctx.violation("nonfinite", {}, desc, pos); if (fabs(rs[i]->width() - w0[i]) > 1e-9 || fabs(rs[i]->height() - h0[i]) > 1e-9) ctx.violation("size_changed", {}, desc, pos); }
     if (!un) {   // judged even when an internal assertion threw
         for (int i = 0; i < n; i++) for (int j = i + 1; j < n; j++) { if (exempt && i == 0 && j == 1) continue;
+            if (hr.rectIdx >= 0 && (i == hr.rectIdx || j == hr.rectIdx)) { int o = i == hr.rectIdx ? j : i; bool member = false; for (int m : hr.top[0]) if (m == o) member = true; if (member) continue; }   // a member lies inside its cluster's rectangle by design
             double qx = min(rs[i]->getMaxX(), rs[j]->getMaxX()) - max(rs[i]->getMinX(), rs[j]->getMinX()), qy = min(rs[i]->getMaxY(), rs[j]->getMaxY()) - max(rs[i]->getMinY(), rs[j]->getMinY());
             if (qx > 1e-3 && qy > 1e-3) ctx.violation("node_overlap", {}, desc, mcx::fmt("nodes %d,%d overlap %gx%g: ", i, j, qx, qy) + pos); }
         auto bbox = [&](const vector<int> &m, double &x0, double &x1, double &y0, double &y1) { x0 = y0 = 1e18; x1 = y1 = -1e18; for (int v : m) { x0 = min(x0, rs[v]->getMinX()); x1 = max(x1, rs[v]->getMaxX()); y0 = min(y0, rs[v]->getMinY()); y1 = max(y1, rs[v]->getMaxY()); } };
@@ -188,7 +206,7 @@ static void c08_phase(int n, int hier, double pad, bool exempt, bool withSep, in
 // every sequence to the depth bound that ends with a layout call; after EVERY makeFeasible() and run() each user constraint must hold
 // (1e-4) or be reported (lists; for makeFeasible also SubConstraintInfo::satisfied == false).
 static void c07_history_case(const vector<Tpl> &T, int a, int b, int n, int code, const vector<int> &ops) {
-    static const char *ON[] = {"makeFeasible", "run", "drag(node0->(60,60),node1->(0,0))", "drag(node1->(5,5),node2->(5,5))", "new layout object"};
+    static const char *ON[] = {"makeFeasible", "run", "drag(node0->(60,60),node1->(0,0))", "drag(node1->(5,5),node2->(5,5))", "new layout object", "change the separations through setSeparation()"};
     vpsc::Rectangles rs; int c = code; VD x0, y0;
     for (int i = 0; i < n; i++) { double x = GRID[c % 3]; c /= 3; double y = GRID[c % 3]; c /= 3; rs.push_back(new vpsc::Rectangle(x - 10, x + 10, y - 10, y + 10)); x0.push_back(x); y0.push_back(y); }
     vector<Edge> es; for (int i = 0; i + 1 < n; i++) es.push_back(Edge(i, i + 1));
@@ -204,6 +222,7 @@ static void c07_history_case(const vector<Tpl> &T, int a, int b, int n, int code
             int o = ops[k];
             if (o == 2) { rs[0]->moveCentre(60, 60); rs[1]->moveCentre(0, 0); }
             else if (o == 3) { rs[1]->moveCentre(5, 5); if (n > 2) rs[2]->moveCentre(5, 5); }
+            else if (o == 5) { for (size_t q = 0; q < used.size(); q++) if (T[used[q]].edit) T[used[q]].edit(mine[q][0]); }
             else if (o == 4) { delete alg; alg = new ConstrainedFDLayout(rs, es, 30); alg->setConstraints(ccs); alg->setUnsatisfiableConstraintInfo(&ux, &uy); }
             else {
                 for (auto u : ux) delete u; for (auto u : uy) delete u; ux.clear(); uy.clear();
@@ -226,13 +245,14 @@ static void c07_history_case(const vector<Tpl> &T, int a, int b, int n, int code
 }
 static void c07_history_phase(int depth, int placementStep, int maxPair) {
     vector<Tpl> T = templates(); int n = 3;
-    ctx.phase(mcx::fmt("C07 histories depth %d over {makeFeasible, run, drag A, drag B, new layout object} on the same constraint objects, every <=%d-subset of %zu templates x every %d-th of 729 placements", depth, maxPair, T.size(), placementStep));
+    ctx.phase(mcx::fmt("C07 histories depth %d over {makeFeasible, run, drag A, drag B, new layout object, setSeparation (templates with a setter)} on the same constraint objects, every <=%d-subset of %zu templates x every %d-th of 729 placements", depth, maxPair, T.size(), placementStep));
     vector<int> idx(depth, 0);
     do { if (idx[depth - 1] > 1) continue; int lays = 0; for (int o : idx) if (o <= 1) lays++; if (depth > 1 && lays < 2 && idx[0] > 1 && depth == 2) { /* drag/new + one layout: still a history */ }
-        for (size_t a = 0; a < T.size(); a++) for (size_t b = a; b < T.size(); b++) { if (maxPair == 1 && b != a) continue; if (T[a].maxNode >= n || T[b].maxNode >= n) continue;
+        bool hasEdit = false; for (int o : idx) if (o == 5) hasEdit = true;
+        for (size_t a = 0; a < T.size(); a++) for (size_t b = a; b < T.size(); b++) { if (maxPair == 1 && b != a) continue; if (T[a].maxNode >= n || T[b].maxNode >= n) continue; if (hasEdit && !T[a].edit && !T[b].edit) continue;
             for (int code = 0; code < 729; code += placementStep) { if (!ctx.next()) continue; ctx.count("states"); ctx.count("nontrivial"); ctx.sample(mcx::fmt("history [%s]+[%s] code %d", T[a].name.c_str(), T[b].name.c_str(), code), 1); c07_history_case(T, a, b, n, code, idx); ctx.done_case(); }
             if (ctx.stopped()) return; }
-    } while (mcx::odo_next(idx, 5) && !ctx.stopped());
+    } while (mcx::odo_next(idx, 6) && !ctx.stopped());
 }
 
 
@@ -340,8 +360,9 @@ int main(int argc, char **argv) {
     } else {
         c08_phase(3, 0, 0, false, false, 1); c08_phase(3, 2, 0, false, false, 1); c08_phase(3, 0, 0, true, false, 1); c08_phase(3, 0, 0, false, true, 1);
         c08_phase(4, 1, 0, false, false, 15); c08_phase(4, 0, 0, false, false, 15); for (int h = 5; h <= 8; h++) c08_phase(4, h, 0, false, false, 15);
+        for (int h = 9; h <= 12; h++) c08_phase(4, h, 0, false, false, 15);   // clusters that are a node rectangle (RectangularCluster(index)), index 0 and others
         c08_history_phase(3, 2, 1); c08_history_phase(3, 3, 3); c08_history_phase(3, 4, 29);
-        if (T) { for (int h = 0; h < 9; h++) for (double pad : {0.0, 5.0}) c08_phase(4, h, pad, false, false, 5); c08_phase(4, 1, 5, true, true, 5); c08_phase(4, 4, 0, false, true, 5); c08_phase(3, 2, 5, true, true, 1); }
+        if (T) { for (int h = 0; h < 13; h++) for (double pad : {0.0, 5.0}) c08_phase(4, h, pad, false, false, 5); c08_phase(4, 1, 5, true, true, 5); c08_phase(4, 4, 0, false, true, 5); c08_phase(3, 2, 5, true, true, 1); }
     }
     return ctx.finish();
 }
